@@ -115,5 +115,5 @@ def is_prime(n):
             if x == n - 1: break
         else: return False
     return True
-for m in [N, 2**255 - 19, 2**256 - 2**32 - 977, 2**256 - 2**224 + 2**192 + 2**96 - 1, 2**127 - 1, 2**61 - 1, 2**31 - 1, 65537, 65521, 257, 251, 13, 11, 7, 5, 3]:
+for m in [N, 2**255 - 19, 2**256 - 2**32 - 977, 2**256 - 2**224 + 2**192 + 2**96 - 1, 2**127 - 1, 2**61 - 1, 2**31 - 1, 65537, 65521, 257, 251, 13, 11, 7, 5, 3, 2]:
     out(op="prime", m=hx(m), prime=is_prime(m))
